@@ -78,4 +78,28 @@ def closedNoFetch (loadSet : List Nat) (V : List Node) : Bool :=
 def mulBack : List (Nat × Nat) := [(0x168, 0x165)]
 def divBack : List (Nat × Nat) := [(0x188, 0x187)]
 
+
+/-- Successors when no interrupt is taken: at an end word (MAC1, MAC0, NA0 set, MAC2 clear) the
+condition multiplexer selects "interrupt enabled and pending"; that branch is left out. -/
+def succsNoInt (w : UWord) (ir : Nat) : List Nat :=
+  if !w.mac2 && w.mac1 && w.mac0 && (w.na % 2 == 1) then [nextWith w ir false] else succs w ir
+
+def levelNoInt (S : List Node) : List Node :=
+  ((S.filter fun n => !isTerminal n).flatMap fun n =>
+    (irAfter (word n.1) n.2 []).flatMap fun ir' => (succsNoInt (word n.1) ir').map fun a' => (a', ir')).eraseDups
+
+/-- Lengths (in micro-steps after dispatch) of all interrupt-free paths from `S` to the next terminal. -/
+def pathLens : Nat → List Node → List Nat
+  | 0, _ => []
+  | fuel + 1, S =>
+    (if S.any isTerminal then [0] else []) ++ ((pathLens fuel (levelNoInt S)).map (· + 1))
+
+/-- Micro-steps from one instruction fetch (exclusive) to the next (inclusive) for a defined
+instruction without interrupt: dispatch path, plus the second byte's path for prefixes. -/
+def stepsOf (op : Nat) (b2 : Option Nat) : Nat :=
+  (pathLens 17 (start op)).headD 0 + 1 +
+    (match b2 with
+     | some b => if op ≥ 0xF0 then (pathLens 17 (start2 b)).headD 0 + 1 else 0
+     | none => 0)
+
 end Emu2a.Flow
